@@ -141,6 +141,14 @@ def rand_var(rng, name, pk=None, sk=None):
     if sk is None:
         allowed = {"-": ["-", "L", "U", "B"], "L": ["-", "L", "B"], "U": ["-", "U", "B"], "B": ["-", "B"]}[pk]
         sk = rng.choice(allowed)
+    if pk == "U" and sk == "B":
+        # front-end quirk: with an upper physical bound only, checkBoundsCompatibility compares the standard lower
+        # bound with the *default* physical lower bound numeric_limits<long double>::min() (smallest positive
+        # normal, not lowest()): only strictly positive standard lower bounds are accepted
+        phys = Bnd("U", None, rng.randint(8, 40) * 2)
+        hi = phys.hi - rng.choice([0, 0, 2, 8])
+        lo = rng.randint(1, max(1, hi // 2)) * 2 if hi >= 4 else 2
+        return Var(name, phys, Bnd("B", min(lo, hi), hi))
     std = rand_bound(rng, sk, phys) if sk != "-" else None
     return Var(name, phys, std)
 
@@ -518,32 +526,47 @@ def build_mfront(ck):
     foreign = not getattr(vlib, "BUILD_MATCHES_REPO", os.path.realpath(vlib.BUILD).startswith(os.path.realpath(R) + os.sep))
     if foreign:
         ck.notes.append("VERIF_REPO=%s has no build tree of its own: the mfront front end (parsing, descriptions) comes from "
-                        "%s/libTFELMFront (built from another tree), NOT its mfront binary; main.cxx, "
-                        "GenericMaterialPropertyInterfaceBase.cxx, CMaterialPropertyInterfaceBase.cxx and "
-                        "CodeGeneratorUtilities.cxx are compiled from VERIF_REPO and interposed in front of the library "
-                        "(binding verified with LD_DEBUG)" % (R, vlib.BUILD))
+                        "%s/libTFELMFront (built from another tree), NOT its mfront binary; "
+                        "GenericMaterialPropertyInterfaceBase.cxx, CMaterialPropertyInterfaceBase.cxx, CMaterialPropertyInterface.cxx "
+                        "and CodeGeneratorUtilities.cxx are compiled from VERIF_REPO; the generic emitter is interposed in front "
+                        "of the library (binding verified with LD_DEBUG), the c interface is registered by our driver as c38c" % (R, vlib.BUILD))
         ck.log("VERIF_REPO differs from the build tree %s: emitters compiled from %s and interposed" % (vlib.BUILD, R))
     else:
         ck.ensure_targets("TFELMFront")
     inc = [R + "/mfront/include", vlib.BUILD + "/mfront/include"]
-    srcs = ["main", "GenericMaterialPropertyInterfaceBase", "CMaterialPropertyInterfaceBase", "CodeGeneratorUtilities"]
+    srcs = [("driver", os.path.join(vlib.VERIF, "harness/C38/mfront_driver.cxx"))] + \
+           [(n, R + "/mfront/src/%s.cxx" % n) for n in
+            ("GenericMaterialPropertyInterfaceBase", "CMaterialPropertyInterfaceBase", "CMaterialPropertyInterface",
+             "CodeGeneratorUtilities")]
     with ThreadPoolExecutor(max_workers=4) as ex:
-        futs = [ex.submit(ck.cxx, "c38_%s.o" % n, [R + "/mfront/src/%s.cxx" % n], flags=("-c", "-DTFELMFront_EXPORTS"),
-                          includes=inc, std="gnu++20") for n in srcs]
+        futs = [ex.submit(ck.cxx, "c38_%s.o" % n, [s], flags=("-c", "-DTFELMFront_EXPORTS"),
+                          includes=inc, std="gnu++20") for n, s in srcs]
         objs = [f.result() for f in futs]
     libs = ck.libflags("TFELMFront", "MFrontLogStream", "TFELMaterial", "TFELMathParser", "TFELGlossary", "TFELSystem",
                        "TFELUtilities", "TFELException", "TFELConfig", "TFELUnicodeSupport")
     return ck.cxx("c38mfront", objs, flags=("-rdynamic",), libs=libs, std="gnu++20")
 
 
-def check_interposition(ck, mfront, gendir, files):
-    p = ck.run([mfront, "--interface=generic,c"] + files, cwd=gendir, env={"LD_DEBUG": "bindings"}, timeout=600)
-    log = p.stderr
-    want = ["GenericMaterialPropertyInterfaceBase16writeOutputFiles", "CMaterialPropertyInterfaceBase16writeOutputFiles"]
-    ok = all(re.search(r"binding file \S*libTFELMFront\S* \[0\] to \S*c38mfront \[0\]: normal symbol `\S*%s" % w, log) for w in want)
+def generate(ck, mfront, gendir, files):
+    p = ck.run([mfront, "--interface=generic,c38c"] + files, cwd=gendir, timeout=600)
     if p.returncode != 0:
-        tail = "\n".join(l for l in log.splitlines() if "binding file" not in l and "symbol=" not in l)[-3000:]
-        raise vlib.BuildError("the mfront driver built from the tree fails on the generated .mfront files", tail + p.stdout[-2000:])
+        raise vlib.BuildError("the mfront driver built from the tree fails on the generated .mfront files",
+                              (p.stdout + p.stderr)[-3000:])
+
+
+def check_interposition(ck, mfront, gendir, one_file):
+    """the generic emitter that ran is the one compiled from the tree: libTFELMFront's references to
+    GenericMaterialPropertyInterfaceBase::writeOutputFiles/writeSrcFile are bound to our executable
+    (the c interface needs no such check: its classes, compiled from the tree, are registered by our
+    driver under the name c38c, see harness/C38/mfront_driver.cxx)"""
+    d = os.path.join(gendir, "ldcheck")
+    os.makedirs(d, exist_ok=True)
+    import shutil
+    shutil.copy(os.path.join(gendir, one_file), d)
+    p = ck.run([mfront, "--interface=generic,c38c", one_file], cwd=d, env={"LD_DEBUG": "bindings"}, timeout=600)
+    log = p.stderr
+    want = ["GenericMaterialPropertyInterfaceBase16writeOutputFiles", "GenericMaterialPropertyInterfaceBase12writeSrcFile"]
+    ok = all(re.search(r"binding file \S*libTFELMFront\S* \[0\] to \S*c38mfront \[0\]: normal symbol `\S*%s" % w, log) for w in want)
     if not ok:
         raise vlib.BuildError("symbol interposition failed: libTFELMFront does not bind the material-property emitters "
                               "to the objects compiled from the tree", "")
@@ -588,7 +611,8 @@ def run(ck):
     for d in descs:
         with open(os.path.join(gendir, d.law + ".mfront"), "w") as f:
             f.write(d.mfront())
-    check_interposition(ck, mfront, gendir, [d.law + ".mfront" for d in descs])
+    generate(ck, mfront, gendir, [d.law + ".mfront" for d in descs])
+    check_interposition(ck, mfront, gendir, descs[0].law + ".mfront")
     driver = ck.lean_exe("c38driver", "TfelVerif/C38/Driver.lean")
     res = ck.lean(PROPS, PROPS)
     ck.lean_violations(res)
